@@ -552,6 +552,8 @@ def check_ephemeral(scn, res):
     sync_only = {'name': scn.get('name'), 'filters': []}
     sync_names = []
 
+    eph_rooted = set()      # filters whose input (transitively) comes through a purely ephemeral consumer: no functional reference
+
     for f in scn['filters']:
         srcs = f.get('sources')
 
@@ -559,12 +561,38 @@ def check_ephemeral(scn, res):
             keep = [s for s, (up, eph, _, _) in zip(srcs, sources_of(f)) if eph == 0]
 
             if not keep:
+                eph_rooted.add(f['name'])
                 continue      # purely ephemeral consumer: not part of the synchronized stream
+
+            if any(up in eph_rooted for up, eph, _, _ in sources_of(f) if eph == 0):
+                eph_rooted.add(f['name'])
+                continue
 
             f = {**f, 'sources': keep}
             sync_names.append(f['name'])
 
         sync_only['filters'].append(f)
+
+    # a synchronized consumer downstream of an ephemeral one must still get every id its publisher publishes, in order
+    for f in scn['filters']:
+        if f['name'] in eph_rooted:
+            for up, eph, _, _ in sources_of(f):
+                if eph == 0:
+                    pubd = [w[3][2] for w in res.wire if w[1] == 'pub' and w[3][0] == 'pub' and w[3][1] == up and w[3][3] == '//' and (w[3][2] or 0) >= 0]
+                    got  = [e['mid'] for e in res.log if e['ev'] == 'recv' and e['f'] == f['name'] and any(t is not None and t[0][1] == up for t in e['tags'].values())]
+
+                    if res.reason == 'quiet' and got != pubd[:len(got)] or (res.reason == 'quiet' and len(got) < len(pubd) - 1):
+                        bad('sync-consumer-of-ephemeral-branch-lost-frames', f'{f["name"]} (synchronized consumer of {up}) received ids {got} but {up} published {pubd}')
+
+            # ... and every frame its publisher's process() returned must have been published (nothing silently discarded)
+            for up, eph, _, _ in sources_of(f):
+                if eph == 0:
+                    outs = [e for e in res.log if e['ev'] == 'process' and e['f'] == up and e.get('out')]
+                    pubd = [w for w in res.wire if w[1] == 'pub' and w[3][0] == 'pub' and w[3][1] == up and w[3][3] == '//' and (w[3][2] or 0) >= 0]
+
+                    if res.reason == 'quiet' and len(pubd) < len(outs) - 1:
+                        bad('ephemeral-branch-frames-discarded', f'{up} returned {len(outs)} frame sets from process() but published only {len(pubd)} '
+                            f'(ids {[w[3][2] for w in pubd]}): frames were discarded although its synchronized consumer {f["name"]} was waiting')
 
     exp = reference_inputs(sync_only)
     obs = {}
